@@ -1,4 +1,5 @@
 """C14 — sanitized HTML: allow-lists == spec, scheme check covers every attribute (no early accept in the for-all loop), node kinds, depth."""
+import re
 from .. import dex as D, world as W, mir as M
 from . import tables as T, util as U
 
@@ -171,6 +172,47 @@ def run(ctx):
                 if not any(allowed):
                     bad.append([s_[:60] for s_, t in conds][:6])
         ctx.check(bool(rem) and bool(keep) and not bad, "C14.attributes", "C14.attributes:whitelist", w.where(main), bad_msg=f"kept without being allowed: {bad[:1]}")
+    # ---- class filter -------------------------------------------------------------------------------------------------------
+    ctx.rule("C14.classes", "the `class` value is tokenised on ASCII/Unicode whitespace exactly as an HTML parser splits it (str::split_whitespace / "
+                            "split_ascii_whitespace, no other splitter); under a class whitelist a token is retained only after a WildMatch allow "
+                            "pattern matched it and dropped when the patterns are exhausted; a token matching a remove pattern is dropped; the kept "
+                            "tokens are re-joined with a single space")
+    if main is not None:
+        names = [M.callee_name(c) for _, c in M.calls(main["body"])]
+        splitters = [n for n in names if re.search(r"<impl str>::(r?split\w*|lines|char_indices|chars|bytes|matches)$", n)]
+        good = [n for n in splitters if n.endswith(("::split_whitespace", "::split_ascii_whitespace"))]
+        ctx.check(len(good) == 1 and len(splitters) == 1, "C14.classes", "C14.classes:tokenise", w.where(main),
+                  ok_msg=f"tokenised by {good[0].rsplit('::', 1)[-1] if good else '?'}",
+                  bad_msg=f"class tokens are produced by {[n.rsplit('::', 1)[-1] for n in splitters]}: a value such as `language-x<TAB>evil` is one token for the "
+                          f"filter but two classes for an HTML parser, so a class outside the allow-list survives")
+        ctx.check(any(n.endswith("::join") for n in names), "C14.classes", "C14.classes:join", w.where(main), bad_msg="kept classes are not re-joined with join(..)")
+        dexc = D.Dex(w.lookup, adt_discr=w.adt_discr, unroll=1)
+        subs = [fn for fn in w.all_fns() if fn["path"].startswith(main["path"] + "::{closure#") and fn["path"].count("{closure") == main["path"].count("{closure") + 1
+                and "body" in fn and any(M.callee_name(c).endswith("::matches") and "WildMatch" in M.callee_name(c) for _, c in M.calls(fn["body"]))]
+        kinds = {}
+        for g in subs:
+            ps = dexc.paths(g, [D.sym("env"), D.sym("class")])
+            txt = " ".join(D.show_atom(a) for p in ps for a, t in p.conds)
+            kind = "remove" if "remove_classes" in txt else "allow" if "allow_classes" in txt else "?"
+            rets = [p for p in ps if p.kind == "ret"]
+            okk = bool(rets)
+            for p in rets:
+                conds = [(D.show_atom(a), t) for a, t in p.conds]
+                m = [(a, t) for a, t in conds if a.startswith("WildMatchPattern::matches(")]
+                matched = any(t for a, t in m)
+                argok = all(a.rstrip(")").endswith(", class") or ", class)" in a for a, t in m)
+                r = D.show(p.ret)
+                if kind == "allow":
+                    okk = okk and argok and ((r == "True") == matched)
+                elif kind == "remove":
+                    okk = okk and argok and ((r == "False") == matched)
+                else:
+                    okk = False
+            kinds[kind] = okk
+            ctx.check(okk, "C14.classes", f"C14.classes:{kind}-filter", w.where(g),
+                      bad_msg=f"the {kind} filter closure does not decide by `WildMatch::new(pattern).matches(class)` alone (a token is "
+                              f"{'kept without a matching allow pattern or dropped despite one' if kind == 'allow' else 'kept although a remove pattern matches'})")
+        ctx.check(set(kinds) == {"allow", "remove"}, "C14.classes", "C14.classes:filters-present", w.where(main), bad_msg=f"class filter closures found: {sorted(kinds)}")
     from . import controls
     controls.early_accept(ctx, "C14.all-attributes")
     ctx.assumptions += ["html5ever parser/serializer pair: what a parser sees in the output is not decided", "spec lists as in DESIGN.md Appendix A.7"]
